@@ -43,6 +43,8 @@ ASSUMPTIONS = [
     "where 1+rho is exactly zero undefined or the documented fallback 1 are accepted, any other number is a ratio with a zero "
     "denominator reported as a number; the *_autocorr_adj forms and the savings uncertainty are checked as functions of the "
     "library's own reported n' (n' is ill-conditioned near rho=-1), n' itself against the formula",
+    "where the spread of the residuals (or of a column) is itself rounding noise of observed-predicted (mean square / variance > 2.5e10) "
+    "the autocorrelation / R-squared are not judged; otherwise their tolerance grows with that ratio (4e-15 x ratio)",
     "MAPE is taken over rows with |observed| >= floor (or > floor: both accepted), undefined when there is none",
     "column summary statistics that the statement does not name (cvstd, skew, kurtosis) are only checked where they are defined "
     "(mean > floor; n >= 3 / 4 and a non-negligible variance)",
@@ -55,6 +57,10 @@ ASSUMPTIONS = [
     "solar'); n' may use observed_length or merged_length; NMBE/NMAE denominators are sum(observed) and must be safely positive",
     "hourly gate: the model uses the parameter-adjusted forms (cvrmse_adj, pnrmse_adj; named in the warning it emits); a metric "
     "that is undefined cannot pass its threshold; thresholds are never placed exactly at the value",
+    "fitted hourly models: the gate at value*(1+-1e-6) is exercised on the fitted object (settings swapped, _model_fit_is_acceptable()); "
+    "the end-to-end path through fit() uses thresholds a factor 2 away because two hourly fits of the same data are not bit-identical "
+    "(C03's subject), and is judged on the refitted model's own true statistics; stored vs predict(baseline) statistics are two "
+    "evaluations of one fitted model and are compared at 1e-9 relative",
     "series of length 1 are outside the quantifier (length >= 2) and are executed but not judged; a series without any finite "
     "pair is rejected (nothing to compute) whatever the class does",
     "daily/billing: the 'pairs they are given' are the rows of predict(baseline) with finite observed and predicted; wRMSE "
